@@ -120,10 +120,12 @@ func (q *Queue[T]) doAdd(item T) error {
 	q.back = e
 	if q.tracker.len() == 1 { // was empty
 		q.nempty.Signal()
+		verifSig("signal", q.nempty, "nempty")
 	}
 
 	// for the iterator, signal for any updates
 	q.nupdates.Signal()
+	verifSig("signal", q.nupdates, "nupdates")
 
 	return nil
 }
@@ -148,7 +150,13 @@ func (q *Queue[T]) BlockingAdd(ctx context.Context, item T) error {
 
 	// If the context terminates, wake the waiter.
 	ctx, cancel := context.WithCancel(ctx)
-	go func() { <-ctx.Done(); cond.Broadcast() }()
+	verifAt(ctx, "helper.spawn", cond, "nupdates")
+	go func() {
+		<-ctx.Done()
+		verifAt(ctx, "helper.gate", cond)
+		cond.Broadcast()
+		verifAt(ctx, "helper.done", cond)
+	}()
 	defer cancel()
 
 	for q.tracker.cap() <= q.tracker.len() {
@@ -156,7 +164,9 @@ func (q *Queue[T]) BlockingAdd(ctx context.Context, item T) error {
 		case <-ctx.Done():
 			return ctx.Err()
 		default:
+			verifAt(ctx, "prepark", cond, "nupdates")
 			cond.Wait()
+			verifAt(ctx, "woken", cond, &q.mu)
 		}
 	}
 	return q.doAdd(item)
@@ -197,7 +207,13 @@ func (q *Queue[T]) Wait(ctx context.Context) (out T, _ error) {
 func (q *Queue[T]) unsafeWaitWhileEmpty(ctx context.Context) error {
 	// If the context terminates, wake the waiter.
 	ctx, cancel := context.WithCancel(ctx)
-	go func() { <-ctx.Done(); q.nempty.Broadcast() }()
+	verifAt(ctx, "helper.spawn", q.nempty, "nempty")
+	go func() {
+		<-ctx.Done()
+		verifAt(ctx, "helper.gate", q.nempty)
+		q.nempty.Broadcast()
+		verifAt(ctx, "helper.done", q.nempty)
+	}()
 	defer cancel()
 
 	for q.tracker.len() == 0 {
@@ -208,7 +224,9 @@ func (q *Queue[T]) unsafeWaitWhileEmpty(ctx context.Context) error {
 		case <-ctx.Done():
 			return ctx.Err()
 		default:
+			verifAt(ctx, "prepark", q.nempty, "nempty")
 			q.nempty.Wait()
+			verifAt(ctx, "woken", q.nempty, &q.mu)
 		}
 	}
 	return nil
@@ -220,7 +238,13 @@ func (q *Queue[T]) waitForNew(ctx context.Context) error {
 
 	// when the function returns wake all other waiters.
 	ctx, cancel := context.WithCancel(ctx)
-	go func() { <-ctx.Done(); q.nupdates.Broadcast() }()
+	verifAt(ctx, "helper.spawn", q.nupdates, "nupdates")
+	go func() {
+		<-ctx.Done()
+		verifAt(ctx, "helper.gate", q.nupdates)
+		q.nupdates.Broadcast()
+		verifAt(ctx, "helper.done", q.nupdates)
+	}()
 	defer cancel()
 
 	head := q.back
@@ -232,7 +256,9 @@ func (q *Queue[T]) waitForNew(ctx context.Context) error {
 		case <-ctx.Done():
 			return ctx.Err()
 		default:
+			verifAt(ctx, "prepark", q.nupdates, "nupdates")
 			q.nupdates.Wait()
+			verifAt(ctx, "woken", q.nupdates, &q.mu)
 		}
 	}
 
@@ -248,7 +274,9 @@ func (q *Queue[T]) Close() error {
 	defer q.mu.Unlock()
 	q.closed = true
 	q.nupdates.Broadcast()
+	verifSig("broadcast", q.nupdates, "nupdates")
 	q.nempty.Broadcast()
+	verifSig("broadcast", q.nempty, "nempty")
 	return nil
 }
 
@@ -265,6 +293,7 @@ func (q *Queue[T]) popFront() T {
 
 	q.tracker.remove()
 	q.nupdates.Broadcast()
+	verifSig("broadcast", q.nupdates, "nupdates")
 
 	return e.item
 }
@@ -373,6 +402,7 @@ func (q *Queue[T]) Producer() fun.Producer[T] {
 			}
 
 			q.mu.Unlock()
+			verifAt(ctx, "pubsub.Queue.Producer.unlocked")
 			if err := q.waitForNew(ctx); err != nil {
 				return o, err
 			}
